@@ -1,6 +1,6 @@
 (* C13  The sub-registry view ocifilter.Sub(r, prefix) is confined to prefix/ and equals the
    underlying registry restricted to the repositories under the prefix, with the prefix
-   removed.  Statements only; proofs live in Proofs/FilterSub.v.  Throughout: [cbstep] is an
+   removed.  Statements only; proofs live in Proofs/FilterSub.v and Proofs/FilterSubStack.v.  Throughout: [cbstep] is an
    ARBITRARY wrapped registry (any step function of the context's scope, the state and the
    operation) with arbitrary state [st]; [prefix] is any byte string (Sub builds the
    wrapper only for a non-empty one, [sub] covers both); [ctx] is the auth scope found in
@@ -9,7 +9,7 @@
    result is the trace: the calls made on the wrapped registry, each with the scope of the
    context it was made with.  [under prefix r] : r = prefix ++ "/" ++ n for some n. *)
 From Coq Require Import String.
-From OCI Require Import Model.FilterLegacy Proofs.FilterSelect Proofs.FilterSub.
+From OCI Require Import Model.FilterLegacy Proofs.FilterSelect Proofs.FilterSub Proofs.FilterSubStack.
 From OCI Require Import Model.Filter.
 
 (* Every call, completely: exactly one call reaches the wrapped registry; it is the same
@@ -202,6 +202,48 @@ Proof.
 Qed.
 Print Assumptions C13_sub_scopes_confined.
 
+(* A view of a view.  Sub(Sub(r, p1), p2) is the view Sub(r, p1/p2), whatever r is given
+   ([joined p1 p2] = p1 ++ "/" ++ p2; [as_registry] hands the inner view to the outer one as
+   its registry): for every call the caller gets the state and result Sub(r, p1/p2) gives,
+   the outer view makes exactly one call on the inner view, and for that call the inner view
+   makes on r exactly the call Sub(r, p1/p2) makes (same operation, same rewritten scope). *)
+Theorem C13_sub_of_sub_step :
+  forall (B : Type) (p1 p2 : bytes), p1 <> [] -> p2 <> [] ->
+  forall (cbstep : ctx_registry B) (ctx : scope) (st : B) (o : op),
+    sub p2 (as_registry (sub p1 cbstep)) ctx st o =
+      (fst (sub (joined p1 p2) cbstep ctx st o), [(call_ctx p2 ctx o, sub_op p2 o)]) /\
+    snd (sub p1 cbstep (call_ctx p2 ctx o) st (sub_op p2 o)) = snd (sub (joined p1 p2) cbstep ctx st o).
+Proof. exact @sub_of_sub_step. Qed.
+Print Assumptions C13_sub_of_sub_step.
+
+(* ... over every history: same results, same final state of the registry underneath. *)
+Theorem C13_sub_of_sub :
+  forall (B : Type) (p1 p2 : bytes), p1 <> [] -> p2 <> [] ->
+  forall (cbstep : ctx_registry B) (ctx : scope) (h : list op) (st : B),
+    (fst (trun (sub p2 (as_registry (sub p1 cbstep)) ctx) st h),
+     map fst (snd (trun (sub p2 (as_registry (sub p1 cbstep)) ctx) st h))) =
+    (fst (trun (sub (joined p1 p2) cbstep ctx) st h),
+     map fst (snd (trun (sub (joined p1 p2) cbstep ctx) st h))).
+Proof. exact @sub_of_sub. Qed.
+Print Assumptions C13_sub_of_sub.
+
+(* ... and confinement: every repository named by a call that reaches r is under p1/p2/. *)
+Theorem C13_sub_of_sub_names :
+  forall (B : Type) (p1 p2 : bytes), p1 <> [] -> p2 <> [] ->
+  forall (cbstep : ctx_registry B) (ctx : scope) (st : B) (o : op) (c : bcall) (r : bytes),
+    In c (snd (sub p1 cbstep (call_ctx p2 ctx o) st (sub_op p2 o))) -> In r (op_repos (snd c)) ->
+    under (joined p1 p2) r.
+Proof. exact @sub_of_sub_names. Qed.
+Print Assumptions C13_sub_of_sub_names.
+
+(* What the scope part rests on: the scope the wrapped registry receives (NewScope = sort by
+   Compare and drop adjacent duplicates) is determined by the set of its members, so
+   rewriting in two steps and in one step give the very same scope. *)
+Theorem C13_scopes_rewritten_in_steps :
+  forall (p1 p2 : bytes) (ctx : scope), map_scopes p1 (map_scopes p2 ctx) = map_scopes (joined p1 p2) ctx.
+Proof. exact map_scopes_joined. Qed.
+Print Assumptions C13_scopes_rewritten_in_steps.
+
 (* The code before the repairs f9bf398 / 5c7e867 (Model/FilterLegacy.v: repo() = path.Join,
    the empty name kept empty, the start point passed on unprefixed) violated the
    statements; the witnesses are the inputs kept in corpus/C13. *)
@@ -233,6 +275,12 @@ Example C13_example_listing :
   snd (fst (sub (s "a") (names_registry [s "a/b"; s "a/c"; s "ab/x"]) (ScSet []) tt (Repositories (s "b")))) =
     Ok (RList [s "c"] None).
 Proof. exact fixed_listing_example. Qed.
+
+(* the order of the prefixes of a view of a view matters: team, then proj, is team/proj *)
+Example C13_example_sub_of_sub :
+  sub_op (s "team") (sub_op (s "proj") (GetTag (s "n") (s "t"))) = GetTag (s "team/proj/n") (s "t") /\
+  sub_op (joined (s "proj") (s "team")) (GetTag (s "n") (s "t")) <> GetTag (s "team/proj/n") (s "t").
+Proof. exact sub_of_sub_example. Qed.
 
 Example C13_example_dotdot :
   snd (sub (s "a") (fun _ (st : unit) _ => (st, Ok RUnit))
